@@ -4,6 +4,10 @@
 -/
 namespace ICS
 
+/-- tolerant numeric parsing: anything that is not a number reads as 0 -/
+def nat0 (s : String) : Nat := s.toNat?.getD 0
+def int0 (s : String) : Int := s.toInt?.getD 0
+
 /-- one parsed trace line: kind (`hdr`/`op`/`obs`), name, fields -/
 structure Line where
   kind : String
@@ -33,15 +37,15 @@ def Line.get (l : Line) (k : String) : String :=
 
 def Line.has (l : Line) (k : String) : Bool := (l.kv.find? (·.1 == k)).isSome
 
-def Line.nat (l : Line) (k : String) : Nat := (l.get k).toNat!
+def Line.nat (l : Line) (k : String) : Nat := nat0 (l.get k)
 
-def Line.int (l : Line) (k : String) : Int := (l.get k).toInt!
+def Line.int (l : Line) (k : String) : Int := int0 (l.get k)
 
 def parseNatList (s : String) : List Nat :=
-  if s == "" then [] else (s.splitOn ",").map String.toNat!
+  if s == "" then [] else (s.splitOn ",").map nat0
 
 def parseIntList (s : String) : List Int :=
-  if s == "" then [] else (s.splitOn ",").map String.toInt!
+  if s == "" then [] else (s.splitOn ",").map int0
 
 def parseStrList (s : String) : List String :=
   if s == "" then [] else s.splitOn ","
@@ -51,7 +55,7 @@ def parsePairs (s : String) : List (Nat × Nat) :=
   if s == "" then [] else
   (s.splitOn ",").map fun t =>
     match t.splitOn ":" with
-    | [a, b] => (a.toNat!, b.toNat!)
+    | [a, b] => (nat0 a, nat0 b)
     | _ => (0, 0)
 
 def fmtNatList (l : List Nat) : String := ",".intercalate (l.map toString)
